@@ -17,6 +17,7 @@ def run(chk):
     chk.configs = cfgs
     for r, d in (("MINK.empty", "empty pattern or path -> empty result, before any indexing"),
                  ("MINK.sign", "isSum adds, otherwise subtracts, the pattern point"),
+                 ("MINK.point-ops", "Point::operator+ / operator- build (x +- b.x, y +- b.y) in every build (interpreted on two valuations)"),
                  ("MINK.closing-edge", "path edges i = delta..pathLen-1 with delta = isClosed ? 0 : 1 and g starting at the last / first point"),
                  ("MINK.orientation", "every quad is reversed if not positive before it is stored"),
                  ("MINK.quad", "quad corners (g,h) (i,h) (i,j) (g,j)"),
@@ -27,6 +28,7 @@ def run(chk):
     for cfg in cfgs:
         db = AstDB(cfg)
         e12.minkowski_rules(db, chk, cfg)
+        e12.point_ops_rule(db, chk, cfg)
         e8.rule_wrappers(db, chk, cfg, only=lambda f: f.name in ("MinkowskiSum", "MinkowskiDiff"))
     chk.floor("MINK.union", 4 * len(cfgs))
     chk.floor("SCALE.wrapper", 2 * len(cfgs))
